@@ -12,3 +12,5 @@ import MicroHttp.Props.Tables
 #print axioms MicroHttp.Tables.response_literals_used
 #print axioms MicroHttp.Tables.status_raw
 #print axioms MicroHttp.Tables.version_raw
+#print axioms MicroHttp.Tables.response_writer
+#print axioms MicroHttp.Tables.allow_loop
